@@ -128,6 +128,8 @@ def vstr(v, depth=0):
         return "(%s %s %s)" % (vstr(v[2], d), v[1], vstr(v[3], d))
     if k == "not":
         return "!%s" % vstr(v[1], d)
+    if k == "upd":
+        return "%s{%s: %s}" % (vstr(v[1], d), v[2], vstr(v[3], d))
     return str(v)
 
 
@@ -150,6 +152,8 @@ def walk_value(v):
             stack.append(x[1])
         elif k == "bin":
             stack.extend([x[2], x[3]])
+        elif k == "upd":
+            stack.extend([x[1], x[3]])
 
 
 def mentions(v, pred):
@@ -383,6 +387,7 @@ class Interp:
                 self.trace.append(("assign", lhs["name"], v, e.get("sp")))
             else:
                 self.trace.append(("assign", T.expr_str(lhs), v, e.get("sp")))
+                self.store_path(lhs, v, env)
             return ("unit",)
         if k == "AssignOp":
             lhs = T.peel(e["lhs"])
@@ -391,6 +396,8 @@ class Interp:
             if lhs.get("k") == "Var":
                 env[lhs["name"]] = v
                 self.trace.append(("assign", lhs["name"], v, e.get("sp")))
+            else:
+                self.store_path(lhs, v, env)
             return ("unit",)
         if k == "If":
             c = self.truth(self.ev_cond(e["cond"], env, d))
@@ -498,7 +505,41 @@ class Interp:
             self.assume.setdefault("is:" + p[0], p[1])
 
     # -- projections / patterns -----------------------------------------------------------------
+    def store_path(self, lhs, v, env):
+        """`x.f = v`, `(*x).f.g = v`, `*x = v` for a tracked variable x: functional update of x's abstract value."""
+        path, x = [], lhs
+        for _ in range(8):
+            x = T.peel(x) if isinstance(x, dict) else x
+            if not isinstance(x, dict):
+                return
+            if x.get("k") == "Field":
+                path.append(x["name"])
+                x = x["lhs"]
+            elif x.get("k") in ("Deref", "Borrow", "Scope", "Use") and x.get("arg") is not None:
+                x = x["arg"]
+            elif x.get("k") == "Var":
+                break
+            else:
+                return
+        if not isinstance(x, dict) or x.get("k") != "Var" or x["name"] not in env:
+            return
+        path.reverse()
+        env[x["name"]] = self.set_path(env[x["name"]], path, v)
+
+    def set_path(self, base, path, v):
+        if not path:
+            return v
+        f = path[0]
+        inner = self.set_path(self.project(base, f), path[1:], v)
+        if base[0] == "adt" and f in dict(base[3]):
+            return ("adt", base[1], base[2], tuple((n, inner if n == f else x) for n, x in base[3]))
+        if base[0] == "upd" and base[2] == f:
+            return ("upd", base[1], f, inner)
+        return ("upd", base, f, inner)
+
     def project(self, base, name):
+        if base[0] == "upd":
+            return base[3] if base[2] == name else self.project(base[1], name)
         if base[0] == "adt":
             fs = dict(base[3])
             if name in fs:
@@ -668,7 +709,7 @@ class Interp:
 
     def ev_loop(self, e, env, depth):
         if self.havoc_loops:
-            for n in assigned_vars(e["body"]):
+            for n in assigned_vars(e["body"]) + self.mut_passed_vars(e["body"]):
                 if n in env:
                     env[n] = ("sym", "loop:%s" % n)
         try:
@@ -678,8 +719,24 @@ class Interp:
             return b.value
         except _IterEnd:
             pass
-        self.trace.append(("iter-end", {n: env.get(n) for n in assigned_vars(e["body"]) if n in env}))
+        self.trace.append(("iter-end", {n: env.get(n) for n in assigned_vars(e["body"]) + self.mut_passed_vars(e["body"]) if n in env}))
         raise _IterEnd()
+
+    def mut_passed_vars(self, body):
+        """Variables handed as `&mut` to a workspace function that will be run inline (it may store through the reference)."""
+        out = []
+        for n in T.walk(body):
+            if n.get("k") != "Call" or not n.get("fn"):
+                continue
+            t = self.fx.thir.get(n["fn"])
+            if t is None or not self._may_inline(n["fn"], t):
+                continue
+            for a in n.get("args", []) or []:
+                if self._is_mut_borrow(a):
+                    v = self._place_var(a)
+                    if v is not None and v not in out:
+                        out.append(v)
+        return out
 
     def ev_try(self, e, env, depth):
         v = self.ev(e["arg"], env, depth)
@@ -766,7 +823,35 @@ class Interp:
         if fn is None:
             f = self.ev(e.get("fun"), env, depth + 1)
             return self.apply(f, args, e, depth)
-        return self.call_named(fn, args, e, depth)
+        byref = [self._place_var(a) if self._is_mut_borrow(a) else None for a in e.get("args", [])]
+        self._last_inline = None
+        r = self.call_named(fn, args, e, depth)
+        li = self._last_inline
+        if li is not None and li[0] == fn and any(byref):
+            # the callee was run inline: what it stored through a `&mut` parameter is now the value of the caller's variable
+            for i, name in enumerate(byref):
+                if name is None or name not in env or i >= len(li[1]):
+                    continue
+                pn = li[1][i]
+                if pn is not None and pn in li[2] and li[2][pn] is not args[i] and li[2][pn] != args[i]:
+                    env[name] = li[2][pn]
+                    self.trace.append(("assign", name, li[2][pn], e.get("sp")))
+        self._last_inline = None
+        return r
+
+    @staticmethod
+    def _is_mut_borrow(a):
+        x = a
+        for _ in range(5):
+            if not isinstance(x, dict):
+                return False
+            if x.get("k") == "Borrow" and x.get("mut"):
+                return True
+            if x.get("k") in ("Deref", "Coerce", "Cast", "Use", "Scope", "Borrow") and x.get("arg") is not None:
+                x = x["arg"]
+            else:
+                return False
+        return False
 
     def apply(self, f, args, node, depth):
         if f[0] == "closure":
@@ -817,7 +902,12 @@ class Interp:
             try:
                 if self._inline_depth <= self.max_depth:
                     self.trace.append(("enter", fn, tuple(args), node.get("sp")))
-                    return self.run_inline(t, args, {}, depth)
+                    cenv = {}
+                    r = self.run_inline(t, args, cenv, depth)
+                    pnames = [(p["pat"]["name"] if (p.get("pat") or {}).get("k") == "Bind" else None)
+                              for p in t.get("params", []) if p.get("pat") is not None]
+                    self._last_inline = (fn, pnames, cenv)
+                    return r
             finally:
                 self._inline_depth -= 1
         self.trace.append(("call", fn, tuple(args), node.get("sp")))
